@@ -10,7 +10,10 @@ def jRow (j : Json) : Except String Row := jAssoc jRat j
 
 def jCfg (j : Json) : Except String EulerCfg := do
   pure { nss := ← jNat (← field j "nss"), h := ← jRat (← field j "h"),
-         failKeys := ← jList jRat (← field j "fail") }
+         failKeys := ← jList jRat (← field j "fail"),
+         tol := ← match fieldD j "tol" .null with
+           | .null => pure none
+           | v => do pure (some (← jRat v)) }
 
 def jProto (j : Json) : Except String Protocol := jList (jPair jRat jRow) j
 
